@@ -6,7 +6,7 @@ import "github.com/oasisprotocol/ed25519/internal/modm"
 // C17: Bos-Coster heap operations from an arbitrary state (one operation = one inductive step).
 // The heap is a symbolic permutation of 0..n-1 over n symbolic scalars; scalars have zero limbs above limbSize.
 
-var vHeapSizesQuick = [...]int{3, 5, 7, 9}
+var vHeapSizesQuick = [...]int{3, 5, 7}
 var vHeapSizesThorough = [...]int{3, 5, 7, 9, 11, 13}
 
 func vHeapN() int {
